@@ -26,18 +26,19 @@ SHAPES = {
     'grid2x2': ('grid', [2, 2]),
 }
 QUICK_SHAPES = ['line4', 'grid3x2', 'gen3x2x2', 'gen3x0x2', 'gen0x2x0', 'gen2x2x2']
-KINDS = ['callable', 'list', 'ndarray', 'constant', 'lookup_rank', 'lookup_np_rank', 'lookup_3d']
+KINDS = ['callable', 'list', 'ndarray', 'constant', 'lookup_rank', 'lookup_np_rank', 'lookup_3d', 'constant_tuple',
+         'constant_list']
 NAMES = ['p', 'q', 'r']
 
 META = {
     'rule': 'BFS over histories of add(name, source kind)/remove(name)/remove(unknown)/mutate caller buffer per shape; '
             'distinct_nontrivial counts distinct (columns, last outcome) observations',
-    'alphabet': {'shapes': SHAPES, 'source kinds': KINDS, 'names': NAMES,
+    'alphabet': {'shapes': SHAPES, 'source kinds': KINDS, 'bystander': 'a second world of the same shape with its own component, alive throughout', 'names': NAMES,
                  'values': 'v = 1000*kind + 100x + 10y + z (+7 for the constant generator): every cell and every '
                            'source kind distinguishable',
                  'ops': 'add(name, kind) for absent names, remove(name), remove(zz), mutate(name) = write into the '
                         'list / array the caller passed'},
-    'bounds': {'quick': '6 shapes, names p,q,r, depth 3', 'thorough': '10 shapes, names p,q,r, depth 4'},
+    'bounds': {'quick': '6 shapes, names p,q, depth 4', 'thorough': '10 shapes, names p,q,r, depth 4'},
     'assumptions': ['re-adding a name that already exists is not part of the claim and is not offered',
                     'lookup tables hold ints (so that a rank mismatch cannot index into a value)'],
 }
@@ -76,6 +77,10 @@ class Harness:
         w = World()
         w.model = Core.Model(seed=1)
         w.world = mk(w.model, self.wkind, self.dims)
+        # a bystander world of the same shape, alive at the same time, with a component of its own
+        w.other = mk(Core.Model(seed=2), self.wkind, self.dims)
+        w.other.add_cell_component('keep', Envs.ConstantGenerator(42))
+        w.other_snap = self.cn(w.other.cells)
         w.cols = {}          # name -> (kind, expected values by id)   (insertion order = column order)
         w.bufs = {}          # name -> the caller's buffer (list / ndarray) for list/ndarray sources
         w.known_now = None
@@ -110,6 +115,11 @@ class Harness:
             return buf, vals, buf
         if kind == 'constant':
             return Envs.ConstantGenerator(7 + 1000 * ki), [7 + 1000 * ki] * len(self.table), None
+        if kind in ('constant_tuple', 'constant_list'):
+            # a constant that is itself a sequence with exactly one entry per cell: every cell holds the WHOLE value
+            seq = [1000 * ki + i for i in range(len(self.table))]
+            val = tuple(seq) if kind == 'constant_tuple' else seq
+            return Envs.ConstantGenerator(val), [val] * len(self.table), None
         ex = self.ext
         full = [[[f(ki, (x, y, z)) for z in range(ex[2])] for y in range(ex[1])] for x in range(ex[0])]
         if kind == 'lookup_3d':
@@ -175,6 +185,9 @@ class Harness:
             raise ValueError(op)
 
     def check(self, w):
+        if self.cn(w.other.cells) != w.other_snap:
+            raise Violation('an operation on one world changed the cell components of another world of the same shape',
+                            expected=['pos', 'keep'], observed=list(w.other.cells.columns))
         cells = w.world.cells
         cols = list(cells.columns)
         if cols != ['pos'] + list(w.cols):
@@ -211,7 +224,11 @@ class Harness:
 
 
 def _py(v):
-    return v.item() if isinstance(v, np.generic) else v
+    if isinstance(v, np.generic):
+        return v.item()
+    if isinstance(v, np.ndarray):
+        return v.tolist()
+    return v
 
 
 def explore_one(ctx, item):
@@ -223,7 +240,7 @@ def explore_one(ctx, item):
 
 def run(ctx):
     if ctx.tier == 'quick':
-        items = [(s, NAMES, 3) for s in QUICK_SHAPES]
+        items = [(s, ['p', 'q'], 4) for s in QUICK_SHAPES]
     else:
         items = [(s, NAMES, 4) for s in SHAPES]
     par.pmap(ctx, explore_one, items, procs=ctx.procs)
